@@ -10,6 +10,11 @@ import warnings
 def main():
     prop = sys.argv[1]
     warnings.simplefilter('ignore')
+    import os
+    import clifford
+    repo = os.environ.get('VERIF_REPO', '/repo')
+    if not os.path.realpath(clifford.__file__).startswith(os.path.realpath(repo) + os.sep):
+        raise RuntimeError(f"clifford imported from {clifford.__file__}, expected {repo}")
     mod = importlib.import_module(f'harness.props.{prop}')
     if sys.argv[2] == '--replay':
         obj = json.loads(open(sys.argv[3]).read())
